@@ -32,10 +32,10 @@ import (
 
 type vfPlotFile struct {
 	Dir      int    `json:"dir"`
-	Key      int    `json:"key"`     // <100: wallet key index, >=100: foreign key
+	Key      int    `json:"key"` // <100: wallet key index, >=100: foreign key
 	BL       int    `json:"bl"`
-	Progress string `json:"prog"`    // "new" | "partA" | "partB" | "done"
-	Mut      string `json:"mut"`     // mutation applied after creation
+	Progress string `json:"prog"` // "new" | "partA" | "partB" | "done"
+	Mut      string `json:"mut"`  // mutation applied after creation
 	Arg      int    `json:"arg"`
 }
 
@@ -47,7 +47,7 @@ type vfC11Case struct {
 }
 
 type vfC11Act struct {
-	K     string `json:"k"`     // remove | delete | bulk-remove | bulk-delete | mine | stop | restart
+	K     string `json:"k"` // remove | delete | bulk-remove | bulk-delete | mine | stop | restart
 	N     int    `json:"n"`
 	Force string `json:"force"` // "" | plotting : state forced before the action
 	Flags int    `json:"flags"`
